@@ -113,6 +113,8 @@ func (e *Env) Seed(swamp, key, status string, grp int64, exp time.Time) {
 	meta := &hydrapb.PatchMeta{SetCreatedAt: true}
 	if !exp.IsZero() {
 		meta.SetExpiredAt = timestamppb.New(exp)
+	} else {
+		meta.ClearExpiredAt = true
 	}
 	resp, err := e.S.GW.PatchTreasures(context.Background(), &hydrapb.PatchTreasuresRequest{
 		IslandID: Island, SwampName: swamp, CreateIfNotExist: true, Meta: meta,
@@ -142,6 +144,18 @@ func (e *Env) PatchStatus(swamp string, items []PatchItem, cap *hydrapb.Cap, cre
 	}
 	return e.S.GW.PatchTreasures(context.Background(), &hydrapb.PatchTreasuresRequest{
 		IslandID: Island, SwampName: swamp, CreateIfNotExist: create, Patches: ps, Cap: cap, Meta: meta})
+}
+
+// SetExpiry changes only the expiry of an existing record (zero time clears it).
+func (e *Env) SetExpiry(swamp, key string, exp time.Time) {
+	meta := &hydrapb.PatchMeta{}
+	if exp.IsZero() {
+		meta.ClearExpiredAt = true
+	} else {
+		meta.SetExpiredAt = timestamppb.New(exp)
+	}
+	_, _ = e.S.GW.PatchTreasures(context.Background(), &hydrapb.PatchTreasuresRequest{
+		IslandID: Island, SwampName: swamp, Meta: meta, Patches: []*hydrapb.TreasurePatch{{Key: key}}})
 }
 
 func (e *Env) Delete(swamp string, keys ...string) error {
@@ -316,34 +330,32 @@ func Keys(rs []Rec) []string {
 
 // ---- schedule controller over verifhook --------------------------------------------------
 
-// Ctl parks goroutines that reach a named site (only goroutines registered through Go) until
-// Release is called for them. One Ctl at a time (verifhook.Install is global).
+// Ctl runs registered thread functions on goroutines and parks them at verifhook sites. A thread
+// only parks at the sites named in the Advance call that released it. One Ctl at a time
+// (verifhook.Install is global); goroutines not registered with the Ctl are never parked.
 type Ctl struct {
 	mu     sync.Mutex
-	sites  map[string]bool       // sites at which registered goroutines park
-	gid    map[int64]int         // goroutine id -> thread index
-	parked map[int]chan struct{} // thread index -> release channel (present while parked)
+	fn     map[int]func()
+	gid    map[int64]int            // goroutine id -> thread
+	stop   map[int]map[string]bool  // thread -> sites at which it parks next
+	parked map[int]chan struct{}    // thread -> release channel (present while parked)
 	at     map[int]string
-	cond   *sync.Cond
+	done   map[int]chan struct{}
 }
 
-func NewCtl(sites ...string) *Ctl {
-	c := &Ctl{sites: map[string]bool{}, gid: map[int64]int{}, parked: map[int]chan struct{}{}, at: map[int]string{}}
-	for _, s := range sites {
-		c.sites[s] = true
-	}
-	c.cond = sync.NewCond(&c.mu)
+func NewCtl() *Ctl {
+	c := &Ctl{fn: map[int]func(){}, gid: map[int64]int{}, stop: map[int]map[string]bool{},
+		parked: map[int]chan struct{}{}, at: map[int]string{}, done: map[int]chan struct{}{}}
 	verifhook.Install(func(site string, gid int64, args []int64) {
 		c.mu.Lock()
 		t, ok := c.gid[gid]
-		if !ok || !c.sites[site] {
+		if !ok || !c.stop[t][site] {
 			c.mu.Unlock()
 			return
 		}
 		ch := make(chan struct{})
 		c.parked[t] = ch
 		c.at[t] = site
-		c.cond.Broadcast()
 		c.mu.Unlock()
 		<-ch
 	})
@@ -352,61 +364,124 @@ func NewCtl(sites ...string) *Ctl {
 
 func (c *Ctl) Close() { verifhook.Install(nil) }
 
-// Go runs f on a new goroutine registered as thread t; the returned channel is closed when f
-// returns.
-func (c *Ctl) Go(t int, f func()) chan struct{} {
-	done := make(chan struct{})
-	started := make(chan struct{})
-	go func() {
-		c.mu.Lock()
-		c.gid[verifhook.GoID()] = t
-		c.mu.Unlock()
-		close(started)
-		defer func() {
-			c.mu.Lock()
-			delete(c.gid, verifhook.GoID())
-			c.mu.Unlock()
-			close(done)
-		}()
-		f()
-	}()
-	<-started
-	return done
+// Add registers thread t (not started yet).
+func (c *Ctl) Add(t int, f func()) { c.fn[t] = f }
+
+// Started reports whether thread t has been started.
+func (c *Ctl) Started(t int) bool { c.mu.Lock(); defer c.mu.Unlock(); _, ok := c.done[t]; return ok }
+
+// Finished reports whether thread t has returned.
+func (c *Ctl) Finished(t int) bool {
+	c.mu.Lock()
+	d, ok := c.done[t]
+	c.mu.Unlock()
+	if !ok {
+		return false
+	}
+	select {
+	case <-d:
+		return true
+	default:
+		return false
+	}
 }
 
-// WaitParked blocks until thread t is parked (returns its site) or done is closed (returns "").
-func (c *Ctl) WaitParked(t int, done chan struct{}, timeout time.Duration) (string, bool) {
+// Advance starts or releases thread t and waits until it parks at one of sites ("site"),
+// returns ("done"), or neither happens within timeout ("blocked": it waits for a lock).
+func (c *Ctl) Advance(t int, timeout time.Duration, sites ...string) string {
+	c.mu.Lock()
+	st := map[string]bool{}
+	for _, s := range sites {
+		st[s] = true
+	}
+	c.stop[t] = st
+	d, started := c.done[t]
+	if !started {
+		d = make(chan struct{})
+		c.done[t] = d
+		f := c.fn[t]
+		reg := make(chan struct{})
+		go func() {
+			c.mu.Lock()
+			c.gid[verifhook.GoID()] = t
+			c.mu.Unlock()
+			close(reg)
+			defer func() {
+				c.mu.Lock()
+				delete(c.gid, verifhook.GoID())
+				c.mu.Unlock()
+				close(d)
+			}()
+			f()
+		}()
+		c.mu.Unlock()
+		<-reg
+	} else {
+		ch, ok := c.parked[t]
+		if ok {
+			delete(c.parked, t)
+			delete(c.at, t)
+		}
+		c.mu.Unlock()
+		if ok {
+			close(ch)
+		}
+	}
+	return c.Wait(t, timeout)
+}
+
+// Wait waits for thread t to park or finish.
+func (c *Ctl) Wait(t int, timeout time.Duration) string {
+	c.mu.Lock()
+	d := c.done[t]
+	c.mu.Unlock()
 	deadline := time.Now().Add(timeout)
 	for {
 		c.mu.Lock()
-		if _, ok := c.parked[t]; ok {
-			s := c.at[t]
-			c.mu.Unlock()
-			return s, true
-		}
+		_, ok := c.parked[t]
+		s := c.at[t]
 		c.mu.Unlock()
+		if ok {
+			return s
+		}
 		select {
-		case <-done:
-			return "", true
+		case <-d:
+			return "done"
 		default:
 		}
 		if time.Now().After(deadline) {
-			return "", false
+			return "blocked"
 		}
 		time.Sleep(20 * time.Microsecond)
 	}
 }
 
-// Release lets a parked thread continue.
-func (c *Ctl) Release(t int) {
+// Drain lets every started thread run to completion (no more parking) and starts the rest.
+func (c *Ctl) Drain(n int, timeout time.Duration) bool {
 	c.mu.Lock()
-	ch, ok := c.parked[t]
-	if ok {
+	for t := range c.stop {
+		c.stop[t] = map[string]bool{}
+	}
+	var chs []chan struct{}
+	for t, ch := range c.parked {
+		chs = append(chs, ch)
 		delete(c.parked, t)
 		delete(c.at, t)
 	}
 	c.mu.Unlock()
-	if ok {
+	for _, ch := range chs {
 		close(ch)
 	}
+	ok := true
+	for t := 0; t < n; t++ {
+		if !c.Started(t) {
+			c.Advance(t, timeout)
+		}
+	}
+	for t := 0; t < n; t++ {
+		if c.Wait(t, timeout) != "done" {
+			ok = false
+		}
+	}
+	return ok
 }
